@@ -16,6 +16,33 @@ CHECKS = {
     ),
 }
 
+SIMLOOP_NOTE = "Runs the real Submitter/NodeExecution/worker/Job code; ProcessPoolExecutor and the selector loop are replaced by SimPool/SimLoop (stubs listed in evidence). Sampling of schedules, not enumeration; PYTHONHASHSEED pinned to 0 (pydra's own set iteration makes the controller's line sequence hash-seed dependent)."
+CHECKS.update({
+    "C12": dict(engine="lockstep", category="fault_enumeration",
+        text="For each scenario (plain, slow body, over an errored result, rerun over an existing result, two-node workflow, failing task, foreign-host marker) the ordered list of pre-emption points of the executing process is recorded by a dry run and the process is SIGKILLed at every (quick: strided) index; every (quick: strided) truncation length of _result.pklz is tried; a fresh submission under the simulated clock must terminate within 120 simulated s with exactly the expected outputs, and may skip the body only if a complete successful result was on disk. Thorough adds fine (filelock-line) points, a second crash during recovery and a racing second submitter.",
+        note="Crash = SIGKILL (page cache survives; power loss not modelled). Points are Python lines of job.py/result.py (+filelock), sleeps, write chunks, body points; a line doing several file operations is atomic. Real filelock stale-marker recovery against really dead PIDs.",
+        technique="deterministic simulation: crash-point enumeration with SIGKILL of lockstep-stepped real processes, torn writes, simulated clock", ref="8/C12"),
+    "C14": dict(engine="simloop", category="exploration",
+        text="Generated workflows (2-6 nodes, splits, nesting) with a Chooser-picked subset of failing jobs run on the simulated pool under seeded schedules that interleave workers with the polling loop at line granularity (so a job is seen 'running' before it fails). Oracle from tokens/events: independent jobs executed, data-dependent jobs never executed, submission fails, error text names every failed job.",
+        note=SIMLOOP_NOTE + " 'Depends' is judged both at node and data level; jobs only node-level dependent are unconstrained.",
+        technique="deterministic simulation: virtual-time asyncio loop + simulated process pool, seeded schedule search with injected job failures", ref="8/C14"),
+    "C15": dict(engine="simloop", category="exploration",
+        text="Generated workflows run under the sequential loop (reference) and on the simulated pool under seeded schedules; from the body enter/exit event log: no body starts before every producer of a token it received has exited; every job identity of the reference is executed exactly once (incl. duplicate-identity nodes).",
+        note=SIMLOOP_NOTE, technique="deterministic simulation: virtual-time asyncio loop + simulated process pool, event-order oracle over seeded schedules", ref="8/C15"),
+    "C16": dict(engine="simloop", category="exploration",
+        text="Wide workflows (split and parallel nodes, 2-12 jobs) with max_concurrent=k for k in 1..jobs on a pool larger than the job count, schedules biased to keep workers inside their bodies; invariant at every event: number of bodies between enter and exit <= k.",
+        note=SIMLOOP_NOTE + " 'Executing' is read in its weakest sense (inside the task body).",
+        technique="deterministic simulation: simulated pool + seeded schedules, concurrency invariant on the event log", ref="8/C16"),
+    "C17": dict(engine="simloop", category="exploration",
+        text="Differential: each generated workflow is run under the debug worker (reference) and under several seeded schedules of the simulated pool with 1-8 processes and max_concurrent 1..n/unlimited; outputs must be structurally equal (or both fail).",
+        note=SIMLOOP_NOTE + " Agreement with a reference semantics of the state algebra is not claimed (C03).",
+        technique="deterministic simulation: differential runs of sequential loop vs seeded pool schedules", ref="8/C17"),
+    "C18": dict(engine="simloop", category="exploration",
+        text="Bounded liveness: workflows with a cycle closed through node-input assignment (untyped and typed) under both loops, and acyclic workflows with one progress-removing fault (pool worker SIGKILLed, result file lost, stale lock of a dead local PID, stale lock of another host) must return or raise within deterministic budgets (pydra function calls, scheduler steps, 600 simulated s).",
+        note=SIMLOOP_NOTE + " Termination is judged by deterministic budgets, never a wall clock.",
+        technique="deterministic simulation: virtual time + fault injection (kill, lost file, stale locks), bounded-liveness oracle", ref="8/C18"),
+})
+
 NA = {
     "C01": "pure function of (splitter expression, input lists): no schedule, clock, fault or history can change which jobs exist; deciding it is input enumeration against a reference semantics, not simulation",
     "C02": "pure function of (splitter, combiner, lists); same reason as C01",
@@ -77,6 +104,7 @@ def main():
         },
         "engines": [
             {"name": "lockstep", "path": "/verif/simlib/lockstep.py", "serves_properties": [p for p in claimed if CHECKS[p]["engine"].startswith("lockstep")], "kind_free_text": "real forked processes single-stepped by a seeded controller (sys.settrace line points, simulated sleep/clock, chunked writes, SIGKILL crashes)"},
+            {"name": "simloop", "path": "/verif/simlib/simloop.py", "serves_properties": [p for p in claimed if CHECKS[p]["engine"].startswith("simloop")], "kind_free_text": "virtual-time asyncio.BaseEventLoop subclass running the real Submitter; ProcessPoolExecutor replaced by a pool of lockstep actors; controller traced at line granularity"},
         ],
         "checks": checks,
         "notes": "Technique family: deterministic simulation with fault injection. One Chooser (seeded PRNG or replay list) decides every schedule, delay, fault and generated operation. See DESIGN.md.",
